@@ -23,8 +23,8 @@ func init() {
 			"non-trivial = at least two executions of one key happened and some call was coalesced, or the gate probe ran; distinct = distinct (keys, callers, style mix, executions) signatures",
 		Assumptions: []string{"the counter is maintained by an outermost ExclusiveWrapper for CallWithOptions calls and by the supplied function itself for the other styles (decrement slightly early: the sound side)"},
 		Families: []core.Family{
-			{Name: "mixed-styles", N: core.TierN(800, 10000), Batch: 25, Run: c09Mixed},
-			{Name: "independence", N: core.TierN(120, 1200), Batch: 20, Run: c09Independence},
+			{Name: "mixed-styles", N: core.TierN(800, 40000), Batch: 25, Run: c09Mixed},
+			{Name: "independence", N: core.TierN(120, 4800), Batch: 20, Run: c09Independence},
 		},
 	})
 	core.Register(&core.Property{
@@ -34,8 +34,8 @@ func init() {
 			"VerifWorkLen()==0 at quiescence and a fresh call then runs a fresh execution. non-trivial = some calls were coalesced (their own function never ran); distinct = distinct (style mix, executions, coalesced) signatures",
 		Assumptions: []string{"stamps: call stamp before invoking, start stamp inside the executed function: 'start < call' is then a sound witness of a stale result"},
 		Families: []core.Family{
-			{Name: "mixed-styles", N: core.TierN(800, 10000), Batch: 25, Run: c10Mixed},
-			{Name: "directed-gaps", N: core.TierN(300, 3000), Batch: 20, Run: c10Gaps},
+			{Name: "mixed-styles", N: core.TierN(800, 40000), Batch: 25, Run: c10Mixed},
+			{Name: "directed-gaps", N: core.TierN(300, 12000), Batch: 20, Run: c10Gaps},
 		},
 	})
 }
